@@ -1482,3 +1482,52 @@ func init() {
 	registry["C09"].Meta.Rules["C09.18"] = "a field that is read is written somewhere: every field of an unexported struct of the root package that a function loads is stored to by some function or set in a composite literal (with the `case MsgFilterPipeline` of the partial-read message scan dropped, hyperslabMessages.filterPipeline is always nil where it is read and chunks are decoded as they lie in the file, still compressed)"
 	registry["C09"].Rules = append(registry["C09"].Rules, func(c *Ctx, r *Result) { readButNeverWrittenRule(c, r, "C09.18", map[string]bool{"hdf5": true}, 20) })
 }
+
+// ---- a function that is given a byte order uses it (C11.19) ----
+//
+// Where a function has a binary.ByteOrder parameter and decodes or encodes integers, it does so through that parameter for every
+// width: a PutUintN / UintN called on the package's LittleEndian or BigEndian inside such a function ignores the caller's choice
+// for one width (4-byte fields of a big-endian file come out byte-swapped, all others are right).
+func byteOrderParamRule(c *Ctx, r *Result, rule string, floor int) {
+	n := 0
+	for _, fn := range c.LibFuncs() {
+		if fn.Blocks == nil {
+			continue
+		}
+		var order *ssa.Parameter
+		for _, p := range fn.Params {
+			if strings.HasSuffix(p.Type().String(), "encoding/binary.ByteOrder") {
+				order = p
+			}
+		}
+		if order == nil {
+			continue
+		}
+		viaParam, fixed := 0, ""
+		for _, site := range callsIn(fn) {
+			com := site.Common()
+			if com.IsInvoke() {
+				if com.Value == ssa.Value(order) && (strings.HasPrefix(com.Method.Name(), "PutUint") || strings.HasPrefix(com.Method.Name(), "Uint")) {
+					viaParam++
+				}
+				continue
+			}
+			if f := com.StaticCallee(); f != nil && strings.HasPrefix(f.String(), "(encoding/binary.") && (strings.HasPrefix(f.Name(), "PutUint") || strings.HasPrefix(f.Name(), "Uint")) {
+				fixed = c.InstrPos(site.(ssa.Instruction))
+			}
+		}
+		if viaParam == 0 {
+			continue // the parameter is only passed on
+		}
+		n++
+		r.Check(fixed == "", rule, c.Name(fn)+"#integers-in-the-caller's-byte-order", firstNonEmpty(fixed, c.Pos(fn.Pos())), fmt.Sprintf("%d integer accesses through the byte order parameter; none through a fixed byte order", viaParam))
+	}
+	if n < floor {
+		r.Shortfall(c, rule, fmt.Sprintf("%s: only %d functions that use a byte order parameter (expected >= %d)", rule, n, floor))
+	}
+}
+
+func init() {
+	registry["C11"].Meta.Rules["C11.19"] = "a function that is given a byte order uses it for every width: in a function with a binary.ByteOrder parameter through which integers are read or written, no integer access goes through the package's LittleEndian / BigEndian (writeUint64's 4-byte case on binary.LittleEndian byte-swaps the 4-byte addresses and sizes of a big-endian file)"
+	registry["C11"].Rules = append(registry["C11"].Rules, func(c *Ctx, r *Result) { byteOrderParamRule(c, r, "C11.19", 5) })
+}
